@@ -1313,15 +1313,18 @@ vbi_decode_caption(vbi_decoder *vbi, int line, uint8_t *buf)
 			} else if (c1 <= 0x0F) {
 				xds_separator(vbi, buf);
 				cc->xds = (c1 != XDS_END);
+				cc->last[1][0] = 0;
 				goto finish;
 			} else if (c1 <= 0x1F) {
 				cc->xds = FALSE;
 			} else if (cc->xds) {
 				xds_separator(vbi, buf);
+				cc->last[1][0] = 0;
 				goto finish;
 			}
 		} else if (cc->xds) {
 			xds_separator(vbi, buf);
+			cc->last[1][0] = 0;
 			goto finish;
 		}
  
@@ -1348,28 +1351,27 @@ vbi_decode_caption(vbi_decoder *vbi, int line, uint8_t *buf)
 		vbi_char c;
 
 	case 0x01 ... 0x0F:
-		if (!field2)
-			cc->last[0] = 0;
+		cc->last[field2][0] = 0;
 		break; /* XDS field 1?? */
 
 	case 0x10 ... 0x1F:
 		if (vbi_unpar8 (buf[1]) >= 0) {
-			if (!field2
-			    && buf[0] == cc->last[0]
-			    && buf[1] == cc->last[1]) {
-				/* cmd repetition F1: already executed */
-				cc->last[0] = 0; /* one rep */
+			/* 47 CFR 15.119 (i)(1): Control codes are normally
+			   transmitted twice in succession, on field 2
+			   (EIA 608-B Section 8.3) as on field 1. */
+			if (buf[0] == cc->last[field2][0]
+			    && buf[1] == cc->last[field2][1]) {
+				/* cmd repetition: already executed */
+				cc->last[field2][0] = 0; /* one rep */
 				break;
 			}
 
 			caption_command(vbi, cc, c1, buf[1] & 0x7F, field2);
 
-			if (!field2) {
-				cc->last[0] = buf[0];
-				cc->last[1] = buf[1];
-			}
-		} else if (!field2)
-			cc->last[0] = 0;
+			cc->last[field2][0] = buf[0];
+			cc->last[field2][1] = buf[1];
+		} else
+			cc->last[field2][0] = 0;
 
 		break;
 
@@ -1392,8 +1394,7 @@ vbi_decode_caption(vbi_decoder *vbi, int line, uint8_t *buf)
 			break;
 		}
 
-		if (!field2)
-			cc->last[0] = 0;
+		cc->last[field2][0] = 0;
 
 		ch->nul_ct = 0;
 
